@@ -598,6 +598,14 @@ impl<'c> VisitMut for Rw<'c> {
                         Expr::Call(c) if c.args.len() == 1 && nospace(&c.func.to_token_stream().to_string()).ends_with("Arc::downgrade") => match &c.args[0] { Expr::Reference(r) => match &*r.expr { Expr::Path(p) => p.path.get_ident().map(|i| i.to_string()), _ => None }, _ => None },
                         _ => None };
                     if let Some(sn) = dsrc { if let Some(t) = self.local_types.get(&sn).cloned() { self.local_types.insert(pi.ident.to_string(), format!("?Weak<{}>", t.trim_start_matches('?'))); } }
+                    // `lettype path => W<$arg>`: `let x = path(y)` / `path(y.clone())` with y of known type T gives x the type W<T>
+                    if let Expr::Call(c) = &*init.expr { if c.args.len() == 1 {
+                        let key = nospace(&c.func.to_token_stream().to_string());
+                        let an: Option<String> = match &c.args[0] { Expr::Path(p) => p.path.get_ident().map(|i| i.to_string()), Expr::MethodCall(m) if m.method == "clone" && m.args.is_empty() => match &*m.receiver { Expr::Path(p) => p.path.get_ident().map(|i| i.to_string()), _ => None }, _ => None };
+                        if let Some(at) = an.and_then(|a| self.local_types.get(&a).cloned()).filter(|t| !t.starts_with('?')) {
+                            for (pth, tys) in self.cx.unit.lettypes.clone() { if pth == key && tys.len() == 1 && tys[0].contains("$arg") { self.local_types.insert(pi.ident.to_string(), tys[0].replace("$arg", &at)); } }
+                        }
+                    } }
                     let it = nospace(&init.expr.to_token_stream().to_string());
                     if it.starts_with("Arc::new(AtomicBool::new(") || it.starts_with("AtomicBool::new(") { self.local_types.insert(pi.ident.to_string(), "AtomicBoolV".to_string()); }
                     if it == "true" || it == "false" { self.local_types.insert(pi.ident.to_string(), "bool".to_string()); }
@@ -986,7 +994,16 @@ impl<'a> Visit<'a> for Free {
         syn::visit::visit_expr_field(self, f);
     }
     fn visit_macro(&mut self, m: &'a syn::Macro) {
-        if is_dropped_macro(m) { return; }
+        // D1c: a dropped log line still captures what it names (its tokens, and `{name}` inside its format string)
+        if is_dropped_macro(m) {
+            self.tokens(m.tokens.clone());
+            for t in m.tokens.clone() { if let TokenTree::Literal(l) = t { let s = l.to_string(); if s.starts_with('"') {
+                let b: Vec<char> = s.chars().collect(); let mut i = 0;
+                while i < b.len() { if b[i] == '{' { if i + 1 < b.len() && b[i + 1] == '{' { i += 2; continue; } let mut j = i + 1; let mut n = String::new(); while j < b.len() && (b[j].is_alphanumeric() || b[j] == '_') { n.push(b[j]); j += 1; }
+                    if !n.is_empty() && !n.chars().next().unwrap().is_numeric() && j < b.len() && (b[j] == '}' || b[j] == ':') { self.use_(n); } i = j; } else { i += 1; } }
+            } } }
+            return;
+        }
         // select! arms bind their patterns for their bodies
         if is_select(m) { if let Ok(arms) = syn::parse2::<Arms>(m.tokens.clone()) { for a in &arms.0 { if let Some(f) = &a.fut { self.visit_expr(f); } let b = match &a.pat { Some(p) => binders_of(p), None => BTreeSet::new() }; self.bound.push(b); self.visit_expr(&a.body); self.bound.pop(); } return; } }
         self.tokens(m.tokens.clone());
